@@ -84,6 +84,10 @@ func TestC09(t *testing.T) {
 	for c := 0; c < r.N; c++ {
 		seed := r.Rng.Int63()
 		rng := rand.New(rand.NewSource(seed))
+		if c%2 == 1 {
+			c09ZooCase(t, r, seed, rng, maxH)
+			continue
+		}
 		fa := NewFullApp(t, FullAppOpts{NumValidators: 4, NumUsers: 3, Seed: seed % 1000})
 		fa.KeepAliveAll()
 		if _, err := fa.ActivateEVMChain(FAEvmChain{RefID: "test-chain"}); err != nil {
@@ -266,4 +270,70 @@ func firstLines(s string, n int) string {
 		l = l[:n]
 	}
 	return strings.Join(l, " | ")
+}
+
+// c09ZooCase: hostile-value traffic over ALL 41 message types (message zoo) interleaved with
+// block advancement across the height classes.
+func c09ZooCase(t *testing.T, r *Rec, seed int64, rng *rand.Rand, maxH int64) {
+	w := NewZooWorld(t, seed%1000)
+	fa := w.FA
+	zoo := ZooAll()
+	var history []string
+	nontrivial := false
+	for op := 0; op < 90 && fa.Height() < maxH+400; op++ {
+		w.Maintain()
+		if rng.Intn(8) == 0 {
+			for _, m := range []int64{10, 50, 300, 303} {
+				next := (fa.Height()/m+1)*m - 1
+				if next > fa.Height() && rng.Intn(3) == 0 {
+					if b := fa.AdvanceTo(next + 1); !b.OK() {
+						r.Hit("block_never_aborts", fmt.Sprintf("empty block at height %d aborted: %v %s", b.Height, b.Err, firstLines(b.Panic, 6)),
+							map[string]interface{}{"seed": seed, "zoo": true, "history": history})
+						r.Op(fmt.Sprintf("block %d 0", b.Height), "aborted")
+						return
+					}
+					break
+				}
+			}
+		}
+		m := zoo[rng.Intn(len(zoo))]
+		hostile := rng.Intn(10) < 7
+		actor := m.RightfulActor(w, rng)
+		if rng.Intn(6) == 0 {
+			actor = fa.Users[rng.Intn(len(fa.Users))]
+		}
+		var res FATxResult
+		func() {
+			defer func() {
+				if p := recover(); p != nil {
+					res = FATxResult{Panicked: true, Log: fmt.Sprint("harness-side panic while building ", m.Name, ": ", p)}
+				}
+			}()
+			msg := m.Build(w, actor, rng, hostile)
+			if m.NeedsAuthority && rng.Intn(2) == 0 {
+				res = w.DeliverGov(msg)
+			} else {
+				res = w.Deliver(actor, actor, msg)
+			}
+		}()
+		history = append(history, fmt.Sprintf("h%d %s hostile=%v -> %s", fa.Height(), m.Name, hostile, zooResStr(res)))
+		r.Stat("zoo." + m.Name)
+		if res.OK() {
+			nontrivial = true
+			r.Stat("tx.ok")
+		} else {
+			r.Stat("tx.rejected")
+		}
+		out := "ok"
+		if res.BlockErr != "" || fa.Broken {
+			out = "aborted"
+			r.Hit("block_never_aborts", fmt.Sprintf("block aborted after %s (hostile=%v): %s", m.Name, hostile, firstLines(res.BlockErr, 6)),
+				map[string]interface{}{"seed": seed, "zoo": true, "history": history})
+		}
+		r.Op(fmt.Sprintf("block %d 1", fa.Height()), out)
+		if out == "aborted" {
+			return
+		}
+	}
+	r.Case(fmt.Sprint("c09zoo|", seed), nontrivial)
 }
